@@ -1,7 +1,437 @@
-// correspondence + search binary for property C13 (stub)
+// C13 — one k-means step on synthetic layers through hooks H7 (Layer::verif_*) and H8
+// (Histogram::verif_mass / verif_counts):
+//  (a) correspondence with the Lean model `RP.Kmeans` (the real distances enter as bit patterns,
+//      so argmin is compared as an order and masses exactly), and
+//  (b) a search oracle from the property text: every point merged into exactly one centroid,
+//      the FIRST one at the smallest distance; centroids = exact multiset union of their points;
+//      lookup maps the i-th isomorphism class to the bucket of the i-th point's nearest centroid;
+//      derived metric: one entry per unordered pair, symmetric, >= 0, max 1 (or all 0),
+//      pair keys collision-free for the real cluster counts.
+use robopoker::cards::isomorphism::Isomorphism;
+use robopoker::cards::isomorphisms::IsomorphismIterator;
+use robopoker::cards::street::Street;
+use robopoker::clustering::abstraction::Abstraction;
+use robopoker::clustering::histogram::Histogram;
+use robopoker::clustering::layer::Layer;
+use robopoker::clustering::metric::Metric;
+use robopoker::clustering::pair::Pair;
+use robopoker::transport::measure::Measure;
+use rpharness::*;
+use std::collections::{BTreeMap, BTreeSet};
+use std::fmt::Write as _;
+use std::panic::AssertUnwindSafe;
+
+fn code(a: &Abstraction) -> u128 {
+    let v: u128 = match a {
+        Abstraction::Percent(_) => 0,
+        Abstraction::Learned(_) => 1,
+        Abstraction::Preflop(_) => 2,
+    };
+    (v << 64) | u64::from(*a) as u128
+}
+fn fl(x: f32) -> String {
+    if x.is_nan() { "~NaN".into() } else { format!("~{:e}", x) }
+}
+fn hist_str(h: &Histogram) -> String {
+    let cs = h.verif_counts();
+    let mut s = format!("{} {}", cs.len(), h.verif_mass());
+    for (a, c) in cs.iter() {
+        let _ = write!(s, " {} {}", code(a), c);
+    }
+    s
+}
+fn hist_ans(h: &Histogram) -> String {
+    let cs = h.verif_counts();
+    let mut s = format!(" {} {}", h.verif_mass(), cs.len());
+    for (a, c) in cs.iter() {
+        let _ = write!(s, " {} {}", code(a), c);
+    }
+    s
+}
+fn street_no(s: Street) -> usize {
+    s as isize as usize
+}
+
+fn gen_hist(rng: &mut Rng, universe: &[Abstraction], center: usize, spread: usize, samples: usize) -> Histogram {
+    // samples concentrated around `center` (so that clusters exist), plus a little noise
+    let mut v = vec![];
+    for _ in 0..samples {
+        let i = if rng.chance(1, 8) {
+            rng.below(universe.len() as u64) as usize
+        } else {
+            let off = rng.below(2 * spread as u64 + 1) as i64 - spread as i64;
+            (center as i64 + off).clamp(0, universe.len() as i64 - 1) as usize
+        };
+        v.push(universe[i]);
+    }
+    Histogram::from(v)
+}
+
+struct Case {
+    street: Street,
+    metric_raw: BTreeMap<Pair, f32>,
+    points: Vec<Histogram>,
+    kmeans: Vec<Histogram>,
+    tag: String,
+}
+
+fn layer_of(c: &Case) -> Layer {
+    Layer::verif_new(c.street, Metric::from(c.metric_raw.clone()), c.points.clone(), c.kmeans.clone())
+}
+
 fn main() {
-    let a = rpharness::args();
-    let mut run = rpharness::Run::new(&a.out);
-    run.rule = "stub".into();
+    let a = args();
+    let mut rng = Rng::new(a.seed);
+    let mut run = Run::new(&a.out);
+    quiet_panics();
+    let deep = a.thorough();
+
+    // ---- pair keys of the real cluster counts are collision-free (and never the diagonal key 0)
+    for street in [Street::Pref, Street::Flop, Street::Turn] {
+        let k = street.k();
+        let mut keys = BTreeSet::new();
+        let mut clash = None;
+        for i in 0..k {
+            for j in 0..i {
+                let p = Pair::from((&Abstraction::from((street, i)), &Abstraction::from((street, j))));
+                let key = i64::from(p);
+                if key == 0 || !keys.insert(key) {
+                    clash = Some((i, j));
+                }
+            }
+        }
+        run.spec_checked += 1;
+        run.evaluations += (k * (k - 1) / 2) as u64;
+        if let Some((i, j)) = clash {
+            run.fail("pair-key-collision", &format!("{street:?} k={k}"), "distinct non-zero keys", &format!("pair ({i},{j}) collides"));
+        }
+        run.count_n(&format!("pair-keys-{street:?}"), (k * (k - 1) / 2) as u64);
+    }
+
+    let river: Vec<Abstraction> = (0..=100).map(|i| Abstraction::from((Street::Rive, i))).collect();
+    let turn_abs: Vec<Abstraction> = (0..Street::Turn.k()).map(|i| Abstraction::from((Street::Turn, i))).collect();
+    let flop_abs: Vec<Abstraction> = (0..Street::Flop.k()).map(|i| Abstraction::from((Street::Flop, i))).collect();
+
+    // a metric over all pairs of a universe of learned abstractions (points on a line + jitter)
+    let mut line_metric = |rng: &mut Rng, uni: &[Abstraction]| -> BTreeMap<Pair, f32> {
+        let pos: Vec<f64> = (0..uni.len()).map(|i| i as f64 + 0.3 * rng.unit()).collect();
+        let mut m = BTreeMap::new();
+        for i in 0..uni.len() {
+            for j in 0..i {
+                m.insert(Pair::from((&uni[i], &uni[j])), (pos[i] - pos[j]).abs() as f32);
+            }
+        }
+        m
+    };
+
+    let mut cases: Vec<Case> = vec![];
+    let n_turn = if deep { 60 } else { 14 };
+    let n_flop = if deep { 20 } else { 4 };
+    let n_pref = if deep { 8 } else { 2 };
+    for ci in 0..(n_turn + n_flop + n_pref) {
+        let (street, universe, metric_raw): (Street, &Vec<Abstraction>, BTreeMap<Pair, f32>) = if ci < n_turn {
+            (Street::Turn, &river, BTreeMap::new())
+        } else if ci < n_turn + n_flop {
+            let sub: Vec<Abstraction> = turn_abs[..24].to_vec();
+            let m = line_metric(&mut rng, &sub);
+            (Street::Flop, &turn_abs, m)
+        } else {
+            let sub: Vec<Abstraction> = flop_abs[..24].to_vec();
+            let m = line_metric(&mut rng, &sub);
+            (Street::Pref, &flop_abs, m)
+        };
+        let learned = street != Street::Turn;
+        let usable = if learned { 24 } else { universe.len() };
+        let uni = &universe[..usable];
+        let n = match ci % 5 {
+            0 => 10 + rng.below(20) as usize,
+            1 => 30 + rng.below(70) as usize,
+            2 => 100 + rng.below(150) as usize,
+            3 => if learned { 60 } else { 250 + rng.below(251) as usize },
+            _ => 10 + rng.below(if learned { 80 } else { 490 }) as usize,
+        };
+        let n = if learned && !deep { n.min(80) } else if learned { n.min(200) } else { n };
+        let kc = match ci % 7 {
+            0 => 2,
+            1 => 2 + rng.below(15) as usize,
+            2 => 16,
+            3 => if learned { 8 } else { 144 },
+            4 => 1,
+            5 => if learned { 12 } else { 17 + rng.below(127) as usize },
+            _ => 3 + rng.below(10) as usize,
+        };
+        let n_modes = 2 + rng.below(6) as usize;
+        let modes: Vec<usize> = (0..n_modes).map(|_| rng.below(usable as u64) as usize).collect();
+        let spread = 1 + rng.below(if learned { 3 } else { 12 }) as usize;
+        let mut points: Vec<Histogram> = (0..n)
+            .map(|_| {
+                let c = modes[rng.below(n_modes as u64) as usize];
+                let samples = if learned { 5 + rng.below(30) as usize } else { 46 };
+                gen_hist(&mut rng, uni, c, spread, samples)
+            })
+            .collect();
+        // exact duplicates among the points
+        for _ in 0..n / 10 {
+            let (i, j) = (rng.below(n as u64) as usize, rng.below(n as u64) as usize);
+            points[i] = points[j].clone();
+        }
+        // centroids: copies of points, fresh histograms, duplicates (ties), optionally an empty one
+        let mut kmeans: Vec<Histogram> = (0..kc)
+            .map(|_| {
+                if rng.chance(2, 3) {
+                    points[rng.below(n as u64) as usize].clone()
+                } else {
+                    let c = modes[rng.below(n_modes as u64) as usize];
+                    gen_hist(&mut rng, uni, c, spread + 2, if learned { 40 } else { 200 })
+                }
+            })
+            .collect();
+        let mut tag = format!("{street:?}");
+        if kc >= 3 && rng.chance(1, 2) {
+            // tie: the same centroid twice, at non-adjacent positions
+            let i = rng.below(kc as u64) as usize;
+            let j = (i + 1 + rng.below(kc as u64 - 1) as usize) % kc;
+            kmeans[j] = kmeans[i].clone();
+            tag.push_str("+tied-centroids");
+        }
+        if !learned && ci % 9 == 4 && kc >= 2 {
+            kmeans[rng.below(kc as u64) as usize] = Histogram::default();
+            tag.push_str("+empty-centroid");
+        }
+        if !learned && ci % 13 == 7 {
+            // more centroids than street.k(): the neighbor index can exceed the allocation
+            while kmeans.len() < Street::Turn.k() + 6 {
+                let c = modes[rng.below(n_modes as u64) as usize];
+                kmeans.push(gen_hist(&mut rng, uni, c, spread + 2, 200));
+            }
+            tag.push_str("+too-many-centroids");
+        }
+        cases.push(Case { street, metric_raw, points, kmeans, tag });
+    }
+
+    for case in &cases {
+        let layer = layer_of(case);
+        let (n, kc) = (case.points.len(), case.kmeans.len());
+        let k_alloc = case.street.k();
+        run.count(&format!("layer:{}", case.tag));
+        run.count(&format!("points={}", match n { 0..=29 => "10-29", 30..=99 => "30-99", 100..=249 => "100-249", _ => "250-500" }));
+        run.count(&format!("centroids={}", match kc { 1 => "1", 2 => "2", 3..=16 => "3-16", 17..=143 => "17-143", _ => "144+" }));
+        // ---- the real distances (hook verif_emd): rows[i][j] = emd(point i, centroid j)
+        let rows: Option<Vec<Vec<f32>>> = catch(AssertUnwindSafe(|| {
+            case.points.iter().map(|p| case.kmeans.iter().map(|c| layer.verif_emd(p, c)).collect()).collect()
+        }));
+        let rows = match rows {
+            Some(r) => r,
+            None => {
+                run.notes.push(format!("layer {} skipped: emd itself panics", case.tag));
+                continue;
+            }
+        };
+        run.evaluations += (n * kc) as u64;
+        // ---- neighborhood, point by point
+        let mut nbrs: Vec<Option<(usize, f32)>> = vec![];
+        for (i, p) in case.points.iter().enumerate() {
+            let got = catch(AssertUnwindSafe(|| layer.verif_neighborhood(p)));
+            let mut op = format!("nbr {kc}");
+            for d in &rows[i] { let _ = write!(op, " {}", d.to_bits()); }
+            let ans = match got { Some((k, d)) => format!("{k} {}", fl(d)), None => "panic".into() };
+            run.line(&op, &ans);
+            run.distinct(&op);
+            // oracle: first index attaining the minimum; NaN among >= 2 distances => failure outcome
+            run.spec_checked += 1;
+            let has_nan = rows[i].iter().any(|d| d.is_nan());
+            if has_nan && kc >= 2 {
+                if got.is_some() {
+                    run.fail("neighborhood-nan-not-rejected", &op, "panic (unordered distances)", &ans);
+                }
+            } else {
+                let mn = rows[i].iter().cloned().fold(f32::INFINITY, f32::min);
+                let first = rows[i].iter().position(|d| *d == mn || (kc == 1));
+                match (got, first) {
+                    (Some((k, d)), Some(f)) => {
+                        if k != f || (d.to_bits() != rows[i][f].to_bits() && !(d.is_nan() && rows[i][f].is_nan())) {
+                            run.fail("neighborhood-not-first-nearest", &format!("{} point {i}: distances {:?}", case.tag, rows[i]), &format!("index {f} at {}", rows[i][f]), &ans);
+                        }
+                    }
+                    _ => run.fail("neighborhood-panics", &op, "an index", &ans),
+                }
+            }
+            nbrs.push(got);
+        }
+        // ---- next
+        let real_next = catch(AssertUnwindSafe(|| layer.verif_next()));
+        let mut op = format!("next {k_alloc} {kc} {n}");
+        for (i, p) in case.points.iter().enumerate() {
+            let _ = write!(op, " {}", hist_str(p));
+            for d in &rows[i] { let _ = write!(op, " {}", d.to_bits()); }
+        }
+        let ans = match &real_next {
+            None => "panic".to_string(),
+            Some(cs) => { let mut s = format!("ok {}", cs.len()); for c in cs { s.push_str(&hist_ans(c)); } s }
+        };
+        run.line(&op, &ans);
+        run.distinct(&op);
+        run.evaluations += 1;
+        run.spec_checked += 1;
+        let all_ok = nbrs.iter().all(|x| x.is_some());
+        let in_range = nbrs.iter().all(|x| x.map_or(true, |(k, _)| k < k_alloc));
+        match &real_next {
+            None => {
+                if all_ok && in_range {
+                    run.fail("next-panics", &format!("{} n={n} k={kc}", case.tag), "centroids", "panic");
+                }
+            }
+            Some(cs) => {
+                if !all_ok || !in_range {
+                    run.fail("next-accepts-failed-assignment", &format!("{} n={n} k={kc}", case.tag), "panic", "centroids");
+                } else {
+                    // expected: centroid j = exact union of the points whose first-nearest centroid is j
+                    let mut want: Vec<(usize, BTreeMap<Abstraction, usize>)> = vec![(0, BTreeMap::new()); k_alloc];
+                    for (i, p) in case.points.iter().enumerate() {
+                        let mn = rows[i].iter().cloned().fold(f32::INFINITY, f32::min);
+                        let f = rows[i].iter().position(|d| *d == mn || kc == 1).unwrap();
+                        want[f].0 += p.verif_mass();
+                        for (a, c) in p.verif_counts() { *want[f].1.entry(a).or_default() += c; }
+                    }
+                    let total: usize = cs.iter().map(|c| c.verif_mass()).sum();
+                    let total_pts: usize = case.points.iter().map(|p| p.verif_mass()).sum();
+                    if cs.len() != k_alloc {
+                        run.fail("next-centroid-count", &case.tag, &format!("{k_alloc}"), &format!("{}", cs.len()));
+                    }
+                    if total != total_pts {
+                        run.fail("next-mass-not-conserved", &case.tag, &format!("{total_pts}"), &format!("{total}"));
+                    }
+                    for (j, c) in cs.iter().enumerate() {
+                        let got: BTreeMap<Abstraction, usize> = c.verif_counts().into_iter().collect();
+                        if c.verif_mass() != want[j].0 || got != want[j].1 {
+                            run.fail("next-centroid-not-union-of-nearest-points", &format!("{} centroid {j}", case.tag), &format!("mass {}", want[j].0), &format!("mass {}", c.verif_mass()));
+                        }
+                        let s: usize = got.values().sum();
+                        if s != c.verif_mass() {
+                            run.fail("next-mass-not-sum-of-counts", &format!("{} centroid {j}", case.tag), &format!("{s}"), &format!("{}", c.verif_mass()));
+                        }
+                    }
+                }
+            }
+        }
+        // ---- lookup (Flop / Turn branch of Layer::lookup)
+        if case.street == Street::Flop || case.street == Street::Turn {
+            let real = catch(AssertUnwindSafe(|| BTreeMap::<Isomorphism, Abstraction>::from(layer.verif_lookup())));
+            let isos: Vec<Isomorphism> = IsomorphismIterator::from(case.street).take(n).collect();
+            let mut op = format!("lookup {} {kc} {n}", street_no(case.street));
+            for r in &rows { for d in r { let _ = write!(op, " {}", d.to_bits()); } }
+            let ans = match &real {
+                None => "panic".to_string(),
+                Some(map) => {
+                    let mut s = String::from("ok");
+                    for iso in &isos {
+                        match map.get(iso) { Some(ab) => { let _ = write!(s, " {}", code(ab)); } None => s.push_str(" missing") }
+                    }
+                    s
+                }
+            };
+            run.line(&op, &ans);
+            run.evaluations += 1;
+            run.spec_checked += 1;
+            match &real {
+                None => if all_ok { run.fail("lookup-panics", &case.tag, "a table", "panic"); },
+                Some(map) => {
+                    if !all_ok {
+                        run.fail("lookup-accepts-failed-assignment", &case.tag, "panic", "a table");
+                    } else {
+                        if map.len() != n {
+                            run.fail("lookup-size", &case.tag, &format!("{n} classes"), &format!("{}", map.len()));
+                        }
+                        for (i, iso) in isos.iter().enumerate() {
+                            let mn = rows[i].iter().cloned().fold(f32::INFINITY, f32::min);
+                            let f = rows[i].iter().position(|d| *d == mn || kc == 1).unwrap();
+                            let want = Abstraction::from((case.street, f));
+                            if map.get(iso) != Some(&want) {
+                                run.fail("lookup-not-nearest-centroid-of-ith-point", &format!("{} class {i} ({})", case.tag, iso.0), &format!("{want}"), &format!("{:?}", map.get(iso)));
+                            }
+                        }
+                    }
+                }
+            }
+            run.count("lookup");
+        }
+        // ---- derived metric over the centroids
+        let nonempty = case.kmeans.iter().all(|h| h.verif_mass() > 0);
+        let affordable = case.street == Street::Turn || kc <= 16;
+        if nonempty && affordable && kc <= k_alloc {
+            let emds: Option<Vec<Vec<f32>>> = catch(AssertUnwindSafe(|| {
+                case.kmeans.iter().map(|x| case.kmeans.iter().map(|y| layer.verif_emd(x, y)).collect()).collect()
+            }));
+            let real = catch(AssertUnwindSafe(|| layer.verif_metric()));
+            if let (Some(emds), Some(m)) = (emds, real) {
+                let mut op = format!("metric {} {kc}", street_no(case.street));
+                for r in &emds { for d in r { let _ = write!(op, " {}", d.to_bits()); } }
+                let es = m.verif_entries();
+                let mut ans = format!("{}", es.len());
+                for (p, d) in &es { let _ = write!(ans, " {} {}", i64::from(*p) as u64, fl(*d)); }
+                run.line(&op, &ans);
+                run.distinct(&op);
+                run.evaluations += (kc * kc) as u64;
+                run.spec_checked += 1;
+                let short = format!("{} metric over {kc} centroids", case.tag);
+                if es.len() != kc * (kc - 1) / 2 {
+                    run.fail("metric-entry-count", &short, &format!("{} unordered pairs", kc * (kc - 1) / 2), &format!("{}", es.len()));
+                }
+                let raw = |i: usize, j: usize| (emds[i][j] as f64 + emds[j][i] as f64) / 2.0;
+                let mut mx = 0f64;
+                for i in 0..kc { for j in 0..i { mx = mx.max(raw(i, j)); } }
+                let mut seen_max = 0f32;
+                for i in 0..kc {
+                    for j in 0..kc {
+                        if i == j { continue; }
+                        let (x, y) = (Abstraction::from((case.street, i)), Abstraction::from((case.street, j)));
+                        // read through the stored entries (Pref abstractions have no Metric::distance arm),
+                        // and through Metric::distance where the street has one
+                        let emap: BTreeMap<Pair, f32> = es.iter().cloned().collect();
+                        let mut dxy = emap.get(&Pair::from((&x, &y))).copied();
+                        let mut dyx = emap.get(&Pair::from((&y, &x))).copied();
+                        if case.street != Street::Pref {
+                            let via = catch(AssertUnwindSafe(|| (m.distance(&x, &y), m.distance(&y, &x))));
+                            match via {
+                                Some((p, q)) => {
+                                    if Some(p.to_bits()) != dxy.map(f32::to_bits) {
+                                        run.fail("metric-distance-not-entry", &format!("{short} ({i},{j})"), &format!("{dxy:?}"), &format!("{p}"));
+                                    }
+                                    dxy = Some(p);
+                                    dyx = Some(q);
+                                }
+                                None => { dxy = None; dyx = None; }
+                            }
+                        }
+                        match (dxy, dyx) {
+                            (Some(p), Some(q)) => {
+                                if p.to_bits() != q.to_bits() {
+                                    run.fail("metric-asymmetric", &format!("{short} ({i},{j})"), &format!("{p}"), &format!("{q}"));
+                                }
+                                if !(p >= 0.0) {
+                                    run.fail("metric-negative", &format!("{short} ({i},{j})"), ">= 0", &format!("{p}"));
+                                }
+                                let want = if mx > 0.0 { raw(i, j) / mx } else { 0.0 };
+                                if (p as f64 - want).abs() > 1e-5 {
+                                    run.fail("metric-value", &format!("{short} ({i},{j})"), &format!("{want}"), &format!("{p}"));
+                                }
+                                seen_max = seen_max.max(p);
+                            }
+                            _ => run.fail("metric-missing-pair", &format!("{short} ({i},{j})"), "an entry", "missing"),
+                        }
+                    }
+                }
+                if kc >= 2 && !((seen_max - 1.0).abs() < 1e-6 || (mx == 0.0 && seen_max == 0.0)) {
+                    run.fail("metric-not-scaled-to-one", &short, "max 1 (or all 0)", &format!("{seen_max}"));
+                }
+                run.count("metric");
+            } else {
+                run.notes.push(format!("layer {}: metric/emd over centroids panics", case.tag));
+            }
+        }
+    }
+    run.rule = format!(
+        "{} synthetic layers: Turn (points = equity histograms over the 101 river buckets, emd = Equity::variation, 1..150 centroids incl. 144), Flop and Pref (points over 24 learned abstractions with a line metric, emd = Sinkhorn, 1..16 centroids); 10..500 points with duplicated points, duplicated centroids (ties), an empty centroid (NaN distance), more centroids than street.k(); per layer every point's neighborhood, one next(), lookup() (Flop/Turn, zipped with the real IsomorphismIterator) and metric(); pair keys of the real cluster counts 169/128/144 exhaustively. distinct = distinct op lines",
+        cases.len());
     run.finish();
 }
